@@ -258,3 +258,75 @@ Proof.
   { rewrite <- H. reflexivity. }
   rewrite E. apply (visit_exact st root Hr).
 Qed.
+
+(* ---------------------------------------------------------------- the repository path *)
+Definition reach_any (st : list obj) (roots : list nat) (k : nat) : Prop := exists r, In r roots /\ reach st r k.
+
+Section RepoProofs.
+  Variable st : list obj.
+  Notation n := (length st).
+
+  Lemma node_ids_none (l : list stmt) : (forall s, In s l -> fst s = None) -> node_ids l = [].
+  Proof.
+    induction l as [|s l IH]; intro H; [reflexivity|].
+    cbn [node_ids flat_map]. rewrite (H s (or_introl eq_refl)). cbn [app]. apply IH. intros s' Hs'. apply H. right. exact Hs'.
+  Qed.
+
+  Lemma subgraph_none k fn s : In s (subgraph_stmts st k fn) -> fst s = None.
+  Proof.
+    unfold subgraph_stmts. cbn [app]. intros [E|[E|H]]; [subst; reflexivity | subst; reflexivity|].
+    apply in_app_or in H as [H|[E|[]]]; [|subst; reflexivity].
+    apply in_map_iff in H as [j [E _]]. subst. reflexivity.
+  Qed.
+
+  Lemma repo_visit (roots : list (nat * list N)) : forall acc,
+    proj (fold_left (fun acc r => export st (S n) (fst r) (fst acc ++ subgraph_stmts st (fst r) (snd r), snd acc)) roots acc)
+    = fold_left (fun sn r => visit st (S n) r sn) (map fst roots) (proj acc).
+  Proof.
+    induction roots as [|[k fn] roots IH]; intro acc; [reflexivity|].
+    cbn [fold_left map fst snd]. rewrite IH, export_visit. f_equal. f_equal.
+    unfold proj. cbn [fst snd]. rewrite node_ids_app, (node_ids_none _ (subgraph_none k fn)), app_nil_r. reflexivity.
+  Qed.
+
+  Lemma fold_P (P : nat -> Prop) (Hedge : forall x j, P x -> edge st x j -> P j) fuel (ts : list nat) :
+    forall sn, (forall x, In x (fst sn) -> P x) -> (forall j, In j ts -> j < n -> P j) ->
+    forall x, In x (fst (fold_left (fun sn r => visit st fuel r sn) ts sn)) -> P x.
+  Proof.
+    induction ts as [|j ts IH]; intros sn Hs Ht; [exact Hs|].
+    cbn [fold_left]. apply IH; [|intros j' Hj'; apply Ht; right; exact Hj'].
+    apply (visit_P st P Hedge fuel j sn Hs). apply Ht. left. reflexivity.
+  Qed.
+
+  Theorem repo_exact (roots : list nat) : (forall r, In r roots -> r < n) ->
+    let nodes := snd (fold_left (fun sn r => visit st (S n) r sn) roots ([], [])) in
+    NoDup nodes /\ forall k, In k nodes <-> reach_any st roots k.
+  Proof.
+    intro Hr. cbn zeta.
+    assert (Hi0 : Inv st ([], [])).
+    { split; [constructor|]. split; [intros x []|]. split; [constructor|]. split; [intros x []|]. intros x o j []. }
+    destruct (fold_spec st (S n) (visit_spec st (S n)) roots ([], []) Hi0) as [[[Hnd [Hb [Hndn [Hinc Hcl]]]] [_ [_ S1]]] Hroots]; [cbn; lia|].
+    set (sn := fold_left (fun sn r => visit st (S n) r sn) roots ([], [])) in *.
+    assert (Hsn : forall x, In x (fst sn) -> In x (snd sn)) by (intros x Hx; destruct (S1 x Hx) as [[]|H]; exact H).
+    split; [exact Hndn|]. intro k. split.
+    - intro Hk. apply (fold_P (reach_any st roots)) with (fuel := S n) (ts := roots) (sn := ([], [])).
+      + intros x j [r [Hin Hx]] He. exists r. split; [exact Hin | eapply reach_step; eassumption].
+      + intros x [].
+      + intros j Hj _. exists j. split; [exact Hj | constructor].
+      + apply Hinc, Hk.
+    - intros [r [Hin Hre]]. induction Hre as [|j l Hj IHj He].
+      + apply Hsn, Hroots; [exact Hin | apply Hr, Hin].
+      + destruct He as [o [Ho [Hl Hlt]]]. apply Hsn. apply (Hcl j o l IHj Ho Hl Hlt).
+  Qed.
+End RepoProofs.
+
+Theorem export_repo_nodes_exact st roots : (forall r, In r (map fst roots) -> r < length st) ->
+  NoDup (node_ids (fst (export_repo st roots)))
+  /\ forall k, In k (node_ids (fst (export_repo st roots))) <-> reach_any st (map fst roots) k.
+Proof.
+  intro Hr. unfold export_repo.
+  pose proof (repo_visit st roots ([], [])) as H. change (proj ([], [])) with (@nil nat, @nil nat) in H.
+  assert (E : node_ids (fst (fold_left (fun acc r => export st (S (length st)) (fst r) (fst acc ++ subgraph_stmts st (fst r) (snd r), snd acc)) roots ([], [])))
+              = snd (fold_left (fun sn r => visit st (S (length st)) r sn) (map fst roots) ([], []))).
+  { rewrite <- H. reflexivity. }
+  rewrite E. apply (repo_exact st (map fst roots) Hr).
+Qed.
